@@ -173,6 +173,67 @@ def _dtype_values(e, helpers, depth=0):
     return [src(e)]
 
 
+_INTEGRAL_CALLS = {"int", "len", "range", "enumerate", "index", "round", "ord", "id", "hash"}
+
+
+def _evaluated(e):
+    """the expression contains something whose value is computed and may be fractional: a call (other than the
+    integral builtins), a true division, a float literal"""
+    for x in ast.walk(e):
+        if isinstance(x, ast.Call) and (dotted(x.func) or "?").split(".")[-1] not in _INTEGRAL_CALLS:
+            return True
+        if isinstance(x, ast.BinOp) and isinstance(x.op, ast.Div):
+            return True
+        if isinstance(x, ast.Constant) and isinstance(x.value, float):
+            return True
+    return False
+
+
+def _integral(fn, e, depth=0):
+    """positively an integer: literals, len / int / range-style calls, loop counters, sums and products of those"""
+    if isinstance(e, ast.Constant):
+        return isinstance(e.value, (int, bool)) and not isinstance(e.value, float)
+    if isinstance(e, ast.Call):
+        return (dotted(e.func) or "?").split(".")[-1] in _INTEGRAL_CALLS
+    if isinstance(e, ast.BinOp) and isinstance(e.op, (ast.Add, ast.Sub, ast.Mult, ast.FloorDiv, ast.Mod)):
+        return _integral(fn, e.left, depth) and _integral(fn, e.right, depth)
+    if isinstance(e, ast.UnaryOp):
+        return _integral(fn, e.operand, depth)
+    if isinstance(e, ast.Name) and depth < 2:
+        for l in walk_local(fn, include_self=False):
+            if isinstance(l, (ast.For, ast.comprehension)):
+                it = l.iter
+                f = (dotted(it.func) or "") if isinstance(it, ast.Call) else ""
+                if f == "range" and isinstance(l.target, ast.Name) and l.target.id == e.id:
+                    return True
+                if f == "enumerate" and isinstance(l.target, ast.Tuple) and l.target.elts and isinstance(l.target.elts[0], ast.Name) and l.target.elts[0].id == e.id:
+                    return True
+        defs = [x.value for x in walk_local(fn, include_self=False) if isinstance(x, ast.Assign) and len(x.targets) == 1 and isinstance(x.targets[0], ast.Name) and x.targets[0].id == e.id]
+        return bool(defs) and all(_integral(fn, d, depth + 1) for d in defs)
+    return False
+
+
+def _receives_evaluated_values(fn, c):
+    """Does the array made by call ``c`` receive evaluated (possibly fractional) values?  Element expressions of a list /
+    comprehension argument count (their iterators do not: `[i for i, v in enumerate(vs) if ..]` is an index array);
+    for zeros / empty / full / ones the later subscript stores into the name it is bound to count."""
+    maker = (dotted(c.func) or "").split(".")[-1]
+    if maker in ("zeros", "empty", "ones", "full"):
+        names = {st.targets[0].id for st in walk_local(fn, include_self=False) if isinstance(st, ast.Assign) and st.value is c and len(st.targets) == 1 and isinstance(st.targets[0], ast.Name)}
+        for st in walk_local(fn, include_self=False):
+            tgt = st.targets[0] if isinstance(st, ast.Assign) and len(st.targets) == 1 else st.target if isinstance(st, ast.AugAssign) else None
+            if isinstance(tgt, ast.Subscript) and isinstance(tgt.value, ast.Name) and tgt.value.id in names and not _integral(fn, st.value):
+                return True
+        return maker == "full" and len(c.args) > 1 and _evaluated(c.args[1])
+    for a in c.args[:1]:
+        if isinstance(a, (ast.ListComp, ast.GeneratorExp)):
+            return _evaluated(a.elt)
+        if isinstance(a, (ast.List, ast.Tuple)):
+            return any(_evaluated(e) for e in a.elts)
+        return _evaluated(a)
+    return False
+
+
 def truncating_dtypes(tree):
     found = []
     helpers = {}
@@ -198,7 +259,7 @@ def truncating_dtypes(tree):
             if d is None:
                 continue
             # does the array receive evaluated values?  (its elements come from calls, or it is filled afterwards)
-            fed = any(isinstance(x, ast.Call) for a in c.args for x in ast.walk(a) if x is not c) or (dotted(c.func) or "").split(".")[-1] in ("zeros", "empty", "full", "ones")
+            fed = _receives_evaluated_values(fn, c)
             if not fed:
                 continue
             for txt in _dtype_values(d, helpers):
@@ -455,11 +516,11 @@ DETECTORS = {"P7": "default-tolerance-decision", "P6": "own-dtype-arithmetic", "
 _POSITIVE = {
     "P1": "def gen(xs):\n    for x in xs:\n        yield x\n\ndef build(xs):\n    fns = gen(xs)\n    return lambda x, fns=fns: sum(f(x) for f in fns)\n\ndef rows(elems, qs):\n    it = enumerate(elems)\n    for q in qs:\n        for j, e in it:\n            pass\n",
     "P2": "def check(v):\n    if not (v.lb or v.ub):\n        return None\n    return v\n",
-    "P3": "import numpy as np\ndef ev(c, fns, x):\n    return np.fromiter((f(x) for f in fns), dtype=c.dtype, count=len(fns))\n",
+    "P3": "import numpy as np\ndef ev(c, fns, x):\n    return np.fromiter((f(x) for f in fns), dtype=c.dtype, count=len(fns))\ndef fill(vals, names, kind):\n    out = np.zeros(len(names), dtype=np.int64 if kind else np.float64)\n    for i, nm in enumerate(names):\n        out[i] = vals[nm]\n    return out\n",
     "P4": "_KIND = 'integer'\ndef f(v):\n    return v.domain is _KIND or v.domain is not 'binary'\n",
     "P5": "import numpy as np\ndef g(res, a, b, terms):\n    res[np.concatenate([a, b])] += 1.0\n    idx = []\n    for t in terms:\n        idx.append(t)\n    res[np.array(idx)] += 2.0\n",
 }
-_NEGATIVE = "import numpy as np\ndef ok(xs, v, c):\n    fns = list(f for f in xs)\n    pairs = enumerate(xs)\n    for i, e in pairs:\n        pass\n    if v.lb is not None and v.ub is None:\n        pass\n    out = np.zeros(3, dtype=float)\n    return lambda x, fns=fns: sum(f(x) for f in fns)\n"
+_NEGATIVE = "import numpy as np\ndef ok(xs, v, c):\n    fns = list(f for f in xs)\n    pairs = enumerate(xs)\n    for i, e in pairs:\n        pass\n    if v.lb is not None and v.ub is None:\n        pass\n    out = np.zeros(3, dtype=float)\n    pos = np.array([i for i, w in enumerate(xs) if w in v], dtype=int)\n    counts = np.zeros(len(xs), dtype=int)\n    for i in range(len(xs)):\n        counts[i] += 1\n    return lambda x, fns=fns: sum(f(x) for f in fns)\n"
 
 
 def selfcheck():
@@ -467,7 +528,7 @@ def selfcheck():
         tree = ast.parse(code)
         _parents(tree)
         got = _run(tree, _generator_functions([tree]))
-        n_expected = {"P1": 2, "P2": 2, "P3": 1, "P4": 2, "P5": 2}[kind]
+        n_expected = {"P1": 2, "P2": 2, "P3": 2, "P4": 2, "P5": 2}[kind]
         if sum(1 for f in got if f[1] == kind) != n_expected:
             raise AnalysisError(f"pitfall detector {kind} no longer matches its built-in positive example ({len(got)} finding(s))")
     ex6 = "import numpy as np\nclass Q:\n    def __init__(self, matrix):\n        matrix = np.asarray(matrix)\n        self.matrix = matrix\n    def row(self):\n        return self.matrix + self.matrix.T\n    def ok(self):\n        m = np.asarray(self.matrix, dtype=np.float64)\n        return m + m.T\n"
